@@ -622,7 +622,11 @@ where
         //   error!("Setting waker for {:?}", self.simple_datareader.topic().name());
         // }
         // // DEBUG
+        #[cfg(rustdds_verif)]
+        crate::verif::sched::point("SDRStream.before_set_waker");
         self.simple_datareader.set_waker(Some(cx.waker().clone()));
+        #[cfg(rustdds_verif)]
+        crate::verif::sched::point("SDRStream.after_set_waker");
         match self
           .simple_datareader
           .try_take_one_with(self.decoder.clone())
